@@ -1,6 +1,7 @@
 (** C09 - column iterators behave as an ideal double-ended exact-size indexable sequence. *)
 From TD Require Import Base.Prelude Model.Iter Model.View Model.IterRun Spec.Ideal
-  Proofs.RowsSim Proofs.ColSim Proofs.IterHistory Proofs.ViewGeom.
+  Proofs.RowsSim Proofs.ColSim Proofs.IterHistory Proofs.ViewGeom
+  Model.BigIter Model.BigIterRun Spec.BigIterSpec Proofs.BigIterRefine Proofs.BigIterStep.
 
 (** [col(c)] / [col_mut(c)], c in range: the ideal sequence of that column's cells, for the
     owned array's own range computation and for the views' *)
@@ -22,7 +23,7 @@ Print Assumptions C09_col_out_of_range.
 Theorem C09_step :
   forall dbg it l c, col_sim it l ->
   exists y s' q', icall_step dbg (SCol it) c = Ok (y, s') /\
-                  ideal_call (QCells l) c = (y, q') /\ st_sim s' q'.
+                  Ideal.ideal_call (QCells l) c = (y, q') /\ st_sim s' q'.
 Proof. intros dbg it l c H. exact (step_sim dbg (SCol it) (QCells l) c H (call_ok_not_cells (SCol it) c eq_refl)). Qed.
 Print Assumptions C09_step.
 
@@ -30,7 +31,7 @@ Theorem C09_history :
   forall dbg mutable calls k it l b, col_sim it l ->
   exists o s' q' b',
     icalls dbg mutable k (SCol it) calls b = Ok (o, s', b') /\
-    ideal_calls mutable k (QCells l) calls b = (o, q', b') /\ st_sim s' q'.
+    Ideal.ideal_calls mutable k (QCells l) calls b = (o, q', b') /\ st_sim s' q'.
 Proof. intros dbg mu calls k it l b H. exact (history_sim dbg mu calls k (SCol it) (QCells l) b H (calls_ok_not_cells (SCol it) calls eq_refl)). Qed.
 Print Assumptions C09_history.
 
@@ -48,6 +49,38 @@ Theorem C09_cells_distinct :
   v_cell v c r = v_cell v c' r' -> c = c' /\ r = r'.
 Proof. exact v_cell_inj. Qed.
 Print Assumptions C09_cells_distinct.
+
+(** the column iterators over binary numbers compute what the unary model computes *)
+Theorem C09_binary_model_is_the_model :
+  (forall it, rmap col_res (bcol_next it) = col_next (col_of it)) /\
+  (forall it, rmap col_res (bcol_next_back it) = col_next_back (col_of it)) /\
+  (forall it n, rmap col_res (bcol_nth it n) = col_nth (col_of it) n) /\
+  (forall it n, rmap col_res (bcol_nth_back it n) = col_nth_back (col_of it) n) /\
+  (forall it, N.to_nat (bcol_len it) = col_len (col_of it)) /\
+  (forall it i, rmap N.to_nat (bcol_index it i) = col_index (col_of it) i) /\
+  (forall k v c, rmap col_of (bv_col k v c) = v_col k (view_of_b v) c).
+Proof.
+  repeat split; [exact col_next_ref|exact col_next_back_ref|exact col_nth_ref|exact col_nth_back_ref
+                |exact col_len_ref|exact col_index_ref|exact v_col_ref].
+Qed.
+Print Assumptions C09_binary_model_is_the_model.
+
+(** col(c) / col_mut(c) of a well-formed receiver of ANY size, then ANY finite history
+    (indexing included, every n, i : N): never fails, prints what the two-counter ideal prints *)
+Theorem C09_any_size_any_history :
+  forall k (v : bview) (c : N) cs,
+  wf_view (view_of_b v) -> (c < bvcols v)%N -> (k = KOwned -> bvstride v = bvcols v) ->
+  exists it o s', bv_col k v c = Ok it /\ bcalls (BCol it) cs = Ok (o, s') /\
+    o = fst (BigIterSpec.ideal_calls (bvrows v) [] true (0%N, 0%N) cs).
+Proof. exact big_col_end_to_end. Qed.
+Print Assumptions C09_any_size_any_history.
+
+Example C09_example_huge :
+  let v := mkBview (mkBsl 0 9223372036854775808) 4294967296 2147483648 4294967296 in
+  (it <- bv_col KView v 17 ;; r <- bcol_nth it 4294967296 ;; Ok (fst r, bcol_len (snd r))) = Ok (None, 0%N) /\
+  (it <- bv_col KView v 17 ;; r <- bcol_nth_back it 2147483646 ;; Ok (fst r, bcol_len (snd r), bcol_index (snd r) 1))
+    = Ok (Some 4294967313%N, 1%N, Panic).
+Proof. split; vm_compute; reflexivity. Qed.
 
 Example C09_example :
   let v := mkView (mkSl 5 10) 2 3 4 in
